@@ -694,8 +694,9 @@ def check_run(case: dict, run: _Run, T) -> bool:
         require(run.sched_fin is not None, "finalise did not run")
         _check_workers(case, run, run.sched_fin, "finalise")
         completes = [c for c in calls if c["op"] == "complete"]
+        pe = lambda pp: [(p_.get("PartNumber"), p_.get("ETag")) for p_ in pp]  # noqa: E731
         require(
-            len(completes) == 1 and completes[0]["Parts"] == run.fin_parts,
+            len(completes) == 1 and pe(completes[0]["Parts"]) == pe(run.fin_parts),
             "finalise made %d complete_multipart_upload calls / wrong part list; %s", len(completes), _ctxmsg(case, run),
         )
         require(
@@ -771,17 +772,23 @@ def o_sched(case, T):
 
 # ------------------------------------------------------------------------------------------ sched_dfs2
 DFS_PREFIX = 6
-DFS_SETUPS = [
+DFS_SETUPS = [  # measured size of the complete tree on the repaired code: 5180, 232, 159288 schedules
     {"mode": "local", "share": [0, 0], "writes": [1, 1], "fin": 2, "explicit_client": True},
     {"mode": "cluster", "share": [0, 1], "writes": [1, 1], "fin": 2, "explicit_client": True},
     {"mode": "cluster_shared", "share": [0, 0], "writes": [1, 1], "fin": 2, "explicit_client": False},
 ]
-DFS_LIMIT = {"quick": 60, "thorough": 10**7}
+DFS_SETUPS_THOROUGH = DFS_SETUPS + [  # 61050, 482, 964 schedules
+    {"mode": "local", "share": [0, 0], "writes": [2, 1], "fin": 0, "explicit_client": True},
+    {"mode": "cluster", "share": [0, 1], "writes": [2, 1], "fin": 1, "explicit_client": False},
+    {"mode": "cluster", "share": [0, 1], "writes": [2, 2], "fin": 2, "explicit_client": True},
+]
+DFS_LIMIT = {"quick": 100, "thorough": 10**7}
 
 
 def e_dfs(tier):
+    setups = DFS_SETUPS if tier == "quick" else DFS_SETUPS_THOROUGH
     for prefix in itertools.product((0, 1), repeat=DFS_PREFIX):
-        for su in DFS_SETUPS:
+        for su in setups:
             yield dict(su, prefix=list(prefix), limit=DFS_LIMIT[tier])
 
 
@@ -933,6 +940,11 @@ def _o_sink(case, T, root: Path, MPUFileSink):
         recs[i] = (clone if case["clone"][i] else sink)(no, data)
     if not case["dst_exists"]:
         require(not dst.exists(), "destination exists before finalise")
+    if base_kind in ("elsewhere", "elsewhere_missing"):
+        f1, d1 = _tree(root)
+        stray = sorted(x for x in (f1 - before_files) | (d1 - before_dirs)
+                       if not (x + os.sep).startswith(os.path.relpath(base, root) + os.sep) and x not in allowed_dirs)
+        require(not stray, "parts_base given, yet writing parts created %s outside of it", stray[:4])
     fin_by = clone if case["clone"][0] else sink
     if case["keep"]:
         out = fin_by.finalise(list(recs), keep_parts=True)
